@@ -33,8 +33,17 @@ TRUSTED = ["CPython's eval of the generated source `lambda args: f(g(x), y)`: th
            "IEEE-754 double +,-,*,< are the same operations in Lean's Float (float-typed trees)"]
 ASSUMPTIONS = ["node texts (primitive names, argument names, named terminals, reprs of constants) are non-empty and contain no "
                "separator character ` \\t\\n\\r\\f\\v(),` — ints, floats, bools, identifiers",
-               "the value of an ephemeral / constant has a Python type that is a subclass of its declared type"]
-EXPLANATION = ("proof for the string builder (all arities), the tokenizer and the parser round trip incl. equal evaluation of the "
+               "the value of an ephemeral / constant has a Python type that is a subclass of its declared type",
+               "ADF sets have at least one argument (a zero-argument ADF is bound to its VALUE by compileADF and the call "
+               "`ADF0()` raises TypeError: candidate finding 'compileADF-zero-arg-adf'; the model gives the call its "
+               "denotation)",
+               "float constants are normal doubles (the driver's decimal reader is exact there; subnormals are not generated)"]
+MIN_CASES = 1000
+CASE_TIMEOUT = 20
+EXPLANATION = ("NOTE on `roundtrip`/`eval_roundtrip`: evalTree reads only kind, name and text of a node, so 'the re-parsed tree "
+               "computes the same function' adds nothing beyond 'it prints identically with the same shape' in the model; the "
+               "clause gets its content from the correspondence run, where the re-parsed tree is compiled by the real code. "
+               "proof for the string builder (all arities), the tokenizer and the parser round trip incl. equal evaluation of the "
                "re-parsed tree and the ADF evaluation order; partial for 'the compiled callable': Python's evaluator is trusted, "
                "tied to evalTree by the differential run")
 
@@ -91,7 +100,11 @@ def f_id(a):
     return a
 
 
-OPID = {f_add: "add", f_sub: "sub", f_mul: "mul", f_neg: "neg", f_max2: "max2", f_max3: "max3", f_ite: "ite",
+def f_five():
+    return 5
+
+
+OPID = {f_five: "five", f_add: "add", f_sub: "sub", f_mul: "mul", f_neg: "neg", f_max2: "max2", f_max3: "max3", f_ite: "ite",
         f_lt: "lt", f_and: "and", f_not: "not", f_id: "id"}
 
 
@@ -100,7 +113,10 @@ def e_int():
 
 
 def e_flt():
-    return random.choice([0.25, -0.5, 1.5, 2.0, -3.75, 0.0625])
+    # short dyadics and long / non-dyadic / exponent-form doubles (repr must be the shortest round-trip text)
+    return random.choice([0.25, -0.5, 1.5, 2.0, -3.75, 0.0625, 0.1234567891, 1e-17, 1.0 / 3.0, 0.1, 2.5e-05,
+                          123456.789, 1e+16, 0.30000000000000004, -2.718281828459045, 6.02214076e+23])
+
 
 
 def e_bool():
@@ -144,7 +160,9 @@ class PS(object):
         if type(n) is gp.MetaEphemeral:
             return "%s:%d::e:" % (n.name, self.tid(n.ret))
         kind = "e" if type(type(n)) is gp.MetaEphemeral else "t"
-        return "%s:%d::%s:%s" % (n.name, self.tid(n.ret), kind, n.format())
+        # the text the MODEL prints for a terminal comes from its VALUE (str of a symbolic name, Python's own repr of
+        # a constant), never from Terminal.format(): a change of the printer is then a disagreement
+        return "%s:%d::%s:%s" % (n.name, self.tid(n.ret), kind, term_text(n))
 
     def nodes_tok(self, l):
         return ",".join(self.node_tok(n) for n in l) if len(l) else "-"
@@ -174,6 +192,10 @@ class PS(object):
     def args_tok(self):
         a = self.pset.arguments
         return ",".join(enc(x) for x in a) if a else "-"
+
+
+def term_text(n):
+    return n.value if isinstance(n.value, str) else repr(n.value)
 
 
 def enc(s):
@@ -262,6 +284,9 @@ def typed(key, ins, ret, rename=None):
     p.addPrimitive(f_mul, [float, float], float, name="mulF")
     p.addPrimitive(f_neg, [float], float, name="negF")
     p.addPrimitive(f_ite, [bool, float, float], float, name="iteF")
+    p.addPrimitive(f_five, [], int, name="five")             # a zero-argument primitive: prints `five()`
+    p.addTerminal(0.1, float)
+    p.addTerminal(1.0 / 3.0, float)
     p.addTerminal(1, int)
     p.addTerminal(-2, int)
     p.addTerminal(True, bool)
@@ -317,6 +342,22 @@ def adf_family(nmain=1):
 
 
 _adf = {}
+
+
+def get_adf0():
+    if "zero" not in _adf:
+        a0 = gp.PrimitiveSet("ADF0", 0)
+        a0.addPrimitive(f_add, 2, name="add")
+        a0.addPrimitive(f_mul, 2, name="mul")
+        a0.addTerminal(2)
+        a0.addTerminal(3)
+        m = gp.PrimitiveSet("MAIN", 1)
+        m.addPrimitive(f_add, 2, name="add")
+        m.addPrimitive(f_neg, 1, name="neg")
+        m.addADF(a0)
+        m.addTerminal(1)
+        _adf["zero"] = [PS("adf0-main", m), PS("adf0-0", a0)]
+    return _adf["zero"]
 ADF_HEIGHT_CAP = (3, 3, 3)
 
 
@@ -469,6 +510,23 @@ def tree_case(d, ps, tree, rng, tagprefix):
     toks = [t for t in re.split("[ \t\n\r\f\v(),]", s) if t != ""]
     lines.append("C12 tokens %s" % enc(s))
     expect.append(",".join(enc(t) for t in toks))
+    # --- every constant: the printed text must evaluate back to the value (oracle); the model reads Python's repr
+    seen = set()
+    for n in tree:
+        if isinstance(n, gp.Primitive) or isinstance(n.value, str):
+            continue
+        key = (type(n.value).__name__, repr(n.value))
+        if key in seen:
+            continue
+        seen.add(key)
+        try:
+            back_v = eval(n.format(), {"__builtins__": {}}, {})
+        except Exception as e:  # noqa
+            back_v = e
+        if not same_value(back_v, n.value) and orc is None:
+            orc = "the constant %r is printed as %r, which evaluates to %r" % (n.value, n.format(), back_v)
+        lines.append("C12 lit %s" % enc(repr(n.value)))
+        expect.append("%s %s" % (val_tok(n.value), enc(repr(n.value))))
     # --- compiled callable vs direct evaluation of the prefix tree (oracle) and vs the model ---
     in_types = list(pset.ins)
     tuples = arg_tuples(in_types, rng)
@@ -561,6 +619,28 @@ def evaluate(d):
             sub = tree_print_only(fam[0], trees[0])
             cases = Case(d, [line] + sub[0], [",".join(val_tok(v) for v in got)] + sub[1], sub[2], tag=tag, nontrivial=True)
         return cases
+
+    if k == "adf0":
+        # candidate finding: a zero-argument ADF set; the main tree calls `ADF0()`
+        fam = get_adf0()
+        psets = [ps.pset for ps in fam]
+        trees = [make_tree(ps.pset, g) for ps, g in zip(fam, d["gs"])]
+        if not any(n.name == "ADF0" for n in trees[0]):
+            trees[0] = gp.PrimitiveTree.from_string("add(ADF0(), ARG0)", psets[0])
+        tuples = [(v,) for v in (-2, 0, 3)]
+        parts = ["%s %s %s %s %s" % (enc(ps.pset.name), ps.args_tok(), ps.funs_tok(), ps.vars_tok(), ps.nodes_tok(t))
+                 for ps, t in zip(fam, trees)]
+        line = "C12 adf %s %s" % (tuples_tok(tuples), " ".join(parts))
+        a0 = interp(list(trees[1]), psets[1].context, {})
+        want = [interp(list(trees[0]), dict(psets[0].context, ADF0=(lambda: a0)), {"ARG0": t[0]}) for t in tuples]
+        try:
+            f = gp.compileADF(trees, psets)
+            got = [f(*t) for t in tuples]
+            orc = None if all(same_value(a, b) for a, b in zip(got, want)) else \
+                "compileADF with a zero-argument ADF computes %r, the trees denote %r" % (got, want)
+        except TypeError as e:
+            got, orc = want, "compileADF with a zero-argument ADF: calling the compiled program raises %s" % e
+        return Case(d, [line], [",".join(val_tok(v) for v in want)], orc, tag="adf0", nontrivial=True)
 
     if k == "adf-late":
         # the callable of individual A, called after individual B was compiled against the same sets, must
@@ -705,6 +785,10 @@ def generate(tier, rng, mult):
                         continue
                     for _ in range(2 if thorough else 1):
                         yield {"k": "tree", "ps": key, "g": gen_desc(rng, mn, mx, mode), "seed": rng.randrange(1 << 30)}
+    if adf0_known():
+        for _ in range(40):
+            yield {"k": "adf0", "gs": [gen_desc(rng, 1, 2, "full"), gen_desc(rng, 0, 2, "half")],
+                   "seed": rng.randrange(1 << 30)}
     for _ in range((3000 if thorough else 150) * mult):
         gs = [gen_desc(rng, rng.randint(0, 2), 2, rng.choice(["full", "grow", "half"])) for _ in range(6)]
         yield {"k": "adf-late", "gs": gs, "seed": rng.randrange(1 << 30)}
@@ -774,5 +858,20 @@ def shrink(d):
             yield e
 
 
+ADF0_KEY = "compileADF-zero-arg-adf"
+
+
+def adf0_known(known=None):
+    if known is None:
+        import lib
+        known = lib.load_known("C12")
+    for k in known:
+        if ADF0_KEY in (k.get("key", "") + " " + k.get("what", "")):
+            return k.get("id")
+    return None
+
+
 def classify(desc, msg, known):
+    if isinstance(desc, dict) and desc.get("k") == "adf0":
+        return adf0_known(known)
     return None
